@@ -80,7 +80,7 @@ def random_scenario(rng: random.Random, c: dict) -> dict:
     hist = c['hist']
     buses = []
     for i in range(nb):
-        buses.append({'name': f'B{i}', 'par': rng.random() < c['p_par'], 'lazy': rng.random() < c['p_lazy'],
+        buses.append({'name': f'B{i}', 'par': rng.random() < c['p_par'], 'lazy': rng.random() < c['p_lazy'], 'sub': rng.random() < 0.3,
                       'hist': (rng.choice(hist) if isinstance(hist, (list, tuple)) else hist)})
     fwd = []
     if nb > 1 and rng.random() < c['p_fwd']:
@@ -221,7 +221,7 @@ def dupfwd_scenario(rng: random.Random, i: int) -> dict:
 
 def graph_scenario(n: int, mask: int, entry: int, rng: random.Random, traffic: bool) -> dict:
     """Forwarding digraph on n buses given by the bits of mask (edge a->b is bit a*n+b)."""
-    buses = [{'name': f'B{k}', 'par': False, 'lazy': rng.random() < 0.3, 'hist': None} for k in range(n)]
+    buses = [{'name': f'B{k}', 'par': False, 'lazy': rng.random() < 0.3, 'hist': None, 'sub': rng.random() < 0.3} for k in range(n)]
     fwd = [[a, b, '*' if rng.random() < 0.75 else 0] for a in range(n) for b in range(n) if mask >> (a * n + b) & 1]
     hs = []
     for b in range(n):
@@ -269,6 +269,14 @@ def stop_base(rng: random.Random, i: int) -> dict:
         sc['handlers'].append({'bus': 0, 'pat': 5, 'kind': 'async', 'prog': [['sleep', rng.choice([0.2, 0.3])]]})
         sc['handlers'].append({'bus': 0, 'pat': 5, 'kind': 'async', 'prog': [['sleep', 0.05]]})
         sc['handlers'].append({'bus': 0, 'pat': 0, 'kind': 'async', 'prog': [['disp', 4, 1, 'await', rng.choice([None, 0]), {}]]})
+    if nb > 1 and rng.random() < 0.3:
+        # a cycle in the child graph: a handler of the child hands its PARENT event on to another bus, whose slow handler is
+        # mid-flight when the stop / cancellation arrives
+        ob = rng.randrange(1, nb)
+        sc['handlers'].append({'bus': 0, 'pat': 4, 'kind': 'async', 'prog': [['disp', 5, 0, rng.choice(['fire', 'await']), None, {}]]})
+        sc['handlers'].append({'bus': 0, 'pat': 5, 'kind': rng.choice(['async', 'sync']), 'prog': [['redisp_parent', ob]]})
+        sc['handlers'].append({'bus': ob, 'pat': 4, 'kind': 'async', 'prog': [['sleep', rng.choice([0.5, 1.0])]]})
+        sc['actors'].append([['sleep', rng.choice([0, 0.1])], ['disp', 4, 0, 'fire', 0, {}]])
     for h in sc['handlers']:
         if h['kind'][0] == 'a' and rng.random() < 0.3:
             h['cleanup'] = rng.choice([0.15, 0.4, 1.0])  # slow to react to cancellation: stop() must not wait for that
@@ -316,6 +324,23 @@ def timeout_base(rng: random.Random, i: int) -> dict:
     # make sure the root has at least one awaiting handler with a child that itself awaits a grandchild
     sc['handlers'].insert(0, {'bus': 0, 'pat': 0, 'kind': 'async', 'prog': [['sleep', rng.choice([0.05, 0.1])], ['disp', 1, rng.randrange(nb), 'fire', None, {}], ['disp', 1, rng.randrange(nb), 'await', rng.choice([None, 0, 0.05]), {}], ['sleep', 0.1]], 'cleanup': rng.choice([0, 0, 0.15, 0.4])})
     sc['handlers'].append({'bus': 0, 'pat': 0, 'kind': 'async', 'prog': [['sleep', 0.05]]})
+    if rng.random() < 0.25:
+        # an event object created and dispatched by top-level code (queued behind the root) that a handler of the root passes on to
+        # a further bus and awaits: it has several handlers there, so a timeout can hit while the first is running
+        ob = rng.randrange(nb)
+        sc['actors'].append([['disp', 4, 0, 'fire', 0, {}]])
+        ai = len(sc['actors']) - 1
+        sc['handlers'].append({'bus': 0, 'pat': 0, 'kind': 'async', 'prog': [['sleep', rng.choice([0, 0.02])], ['redisp_actor', ai, 0, ob], ['await_actor', ai, 0], ['sleep', 0.05]]})
+        for b in {0, ob}:
+            sc['handlers'].append({'bus': b, 'pat': 4, 'kind': 'async', 'prog': [['sleep', rng.choice([0.2, 0.4])]]})
+            sc['handlers'].append({'bus': b, 'pat': 4, 'kind': 'async', 'prog': [['sleep', 0.1]]})
+    if rng.random() < 0.25:
+        # one handler function that handles a parent AND the child it dispatches (same type, bounded depth), next to a handler that
+        # awaits a grandchild with several handlers
+        b = rng.randrange(nb)
+        sc['handlers'].append({'bus': b, 'pat': 5, 'kind': 'async', 'prog': [['recurse', 2, b, 'await'], ['sleep', 0.2]]})
+        sc['handlers'].append({'bus': b, 'pat': 5, 'kind': 'async', 'prog': [['disp', 3, rng.randrange(nb), 'await', None, {}]]})
+        sc['handlers'].append({'bus': 0, 'pat': 0, 'kind': 'async', 'prog': [['disp', 5, b, 'await', None, {'timeout': rng.choice([0.3, 0.6, 2.0])}]]})
     if nb == 2 and rng.random() < 0.3:
         # the root event is also handled on a second bus (forwarded there), often a parallel one: every bus gives each of its
         # handlers the event's full timeout, counted from when THAT handler is started
@@ -324,6 +349,16 @@ def timeout_base(rng: random.Random, i: int) -> dict:
             sc['buses'][1]['par'] = True
         for _ in range(rng.randint(1, 3)):
             sc['handlers'].append({'bus': 1, 'pat': 0, 'kind': 'async', 'prog': [['sleep', rng.choice([0.02, 0.1, 0.3, 0.6])]]})
+    if nb == 2 and not sc.get('fwd') and rng.random() < 0.3:
+        # a deeper event type is forwarded from the second bus BACK to the first one, where it has several slow handlers: an event that
+        # has already completed (and signalled) on one bus gets fresh pending results on the other, possibly inside a timed handler's drain
+        t = rng.choice([2, 3])
+        sc['fwd'] = [[1, 0, t]]
+        sc['handlers'].append({'bus': 1, 'pat': t, 'kind': 'async', 'prog': [['sleep', rng.choice([0, 0.02])]]})
+        sc['handlers'].append({'bus': 0, 'pat': t, 'kind': 'async', 'prog': [['sleep', rng.choice([0.15, 0.3])]]})
+        sc['handlers'].append({'bus': 0, 'pat': t, 'kind': 'async', 'prog': [['sleep', 0.1]]})
+        sc['handlers'].append({'bus': 1, 'pat': 1, 'kind': 'async', 'prog': [['disp', t, 1, 'await', None, {}], ['disp', 3 if t == 2 else 2, 0, 'await', None, {}], ['sleep', 0.05]]})
+        sc['handlers'].append({'bus': 0, 'pat': 0, 'kind': 'async', 'prog': [['disp', 1, 1, 'await', None, {'timeout': rng.choice([0.2, 0.35, 0.5])}], ['sleep', 0.05]]})
     if rng.random() < 0.2:
         # a blocking sync handler (the loop cannot run anything while it blocks) beside async siblings
         b = rng.randrange(nb)
@@ -432,6 +467,33 @@ def manual_step_scenario(rng: random.Random, i: int) -> dict:
     hs.append({'bus': 0, 'pat': 1, 'kind': 'async', 'prog': [['sleep', 0.05]]})
     actors = [[['disp', 0, 0, 'await', 0, {}]], [['disp', 1, rng.randrange(1, nb), 'fire', rng.choice([0, 0.01]), {}] for _ in range(rng.randint(2, 5))] + [['disp', 1, 0, 'fire', 0, {}]]]
     return {'seed': rng.randrange(1 << 30), 'buses': buses, 'fwd': [], 'handlers': hs, 'actors': actors}
+
+
+def fwdback_base(rng: random.Random, i: int) -> dict:
+    """H on bus 0 awaits C on bus 1 (C carries the enumerated timeout); C's handler awaits G, which bus 1 handles quickly and forwards
+    BACK to bus 0, where G has several slow handlers; C's handler then awaits something else on bus 0 and so processes G there inline.
+    G's completion signal is already set from bus 1 when it gets fresh pending results on bus 0."""
+    par1 = rng.random() < 0.2
+    buses = [{'name': 'B0', 'par': False, 'lazy': False, 'hist': None}, {'name': 'B1', 'par': par1, 'lazy': rng.random() < 0.2, 'hist': None}]
+    hs = [
+        {'bus': 0, 'pat': 0, 'kind': 'async', 'prog': [['disp', 1, 1, 'await', rng.choice([None, 0]), {}], ['sleep', 0.05]], 'cleanup': rng.choice([0, 0, 0.15])},
+        {'bus': 1, 'pat': 1, 'kind': 'async', 'prog': [['disp', 2, 1, 'await', None, {}], ['disp', 3, 0, rng.choice(['await', 'await', 'fire']), None, {}], ['sleep', 0.05]], 'cleanup': rng.choice([0, 0.15])},
+        {'bus': 1, 'pat': 2, 'kind': rng.choice(['async', 'sync']), 'prog': [] if rng.random() < 0.5 else [['sleep', 0.02]]},
+        {'bus': 0, 'pat': 2, 'kind': 'async', 'prog': [['sleep', rng.choice([0.15, 0.3])]], 'cleanup': rng.choice([0, 0, 0.15])},
+        {'bus': 0, 'pat': 2, 'kind': 'async', 'prog': [['sleep', 0.1]]},
+        {'bus': 0, 'pat': 3, 'kind': 'async', 'prog': [['sleep', 0.05]]},
+    ]
+    if rng.random() < 0.4:
+        hs.append({'bus': 0, 'pat': 2, 'kind': 'async', 'prog': [['disp', 3, rng.randrange(2), 'fire', None, {}]]})
+    actors = [[['disp', 0, 0, 'await', 0, {}]], [['sleep', rng.choice([0.05, 0.4])], ['disp', 3, rng.randrange(2), 'await', 0, {}]]]
+    return {'seed': rng.randrange(1 << 30), 'buses': buses, 'fwd': [[1, 0, 2]], 'handlers': hs, 'actors': actors}
+
+
+def fwdback_derive(sc: dict, t: float, rng: random.Random):
+    if t <= 1e-9:
+        return
+    sc['handlers'][0]['prog'][0][5] = {'timeout': t}
+    yield sc
 
 
 def double_cancel_base(rng: random.Random, i: int) -> dict:
@@ -657,6 +719,13 @@ def idle_base(rng: random.Random, i: int) -> dict:
     if rng.random() < 0.6:
         actors.append([['sleep', rng.choice(SHORT)], ['disp', rng.choice([1, 2, 3]), rng.randrange(nb), 'fire', rng.choice(SHORT), {}], ['disp', 3, tb, 'fire', 0, {}]])
     fwd = [[tb, (tb + 1) % nb, rng.choice(['*', 3])]] if rng.random() < 0.3 else []  # the bus's last event may finish on another bus
+    if rng.random() < 0.3:
+        # a bus that has been idle for seconds (its run loop has polled an empty queue dozens of times) holds, in its history, an
+        # event that becomes 'started' again because user code hands the finished object to ANOTHER bus with a slow handler
+        ob = (tb + 1) % nb
+        hs.append({'bus': ob, 'pat': 4, 'kind': 'async', 'prog': [['sleep', rng.choice([0.3, 0.6])]]})
+        hs.append({'bus': tb, 'pat': 4, 'kind': 'async', 'prog': []})
+        actors.append([['disp', 4, tb, 'await', rng.choice([2.3, 3.1]), {}], ['redisp', 0, ob], ['sleep', 0.05], ['idle', tb, None]])
     return {'seed': rng.randrange(1 << 30), 'buses': buses, 'fwd': fwd, 'handlers': hs, 'actors': actors}
 
 
@@ -716,6 +785,13 @@ def shapes_scenario(rng: random.Random, i: int) -> dict:
         hs.append({'bus': b, 'pat': 0, 'kind': 'async', 'prog': [['sleep', rng.choice([0, 0, 0.001, 0.05])], ['await_shared', key], ['disp', 3, b, 'fire', None, {}]]})
         if rng.random() < 0.4:
             hs.append({'bus': rng.randrange(nb), 'pat': 1, 'kind': 'async', 'prog': [['sleep', rng.choice(SHORT)], ['await_shared', key]]})
+    # a later handler of the same event passes the children its siblings dispatched on to another bus (the same child object
+    # dispatched from inside two different handlers of one parent)
+    if nb > 1 and rng.random() < 0.35:
+        b = rng.randrange(nb)
+        ob = rng.choice([x for x in range(nb) if x != b])
+        hs.append({'bus': b, 'pat': 1, 'kind': 'async', 'prog': [['disp', 3, b, rng.choice(['fire', 'await']), None, {}]]})
+        hs.append({'bus': b, 'pat': 1, 'kind': rng.choice(['async', 'sync']), 'prog': [['relay_children', ob]]})
     # the same child object dispatched to two buses by one handler
     if nb > 1 and rng.random() < 0.4:
         b = rng.randrange(nb)
